@@ -15,6 +15,7 @@
 (*              truth: child gone or zombie, no worker thread left), else "alive"         *)
 (*      os_ret  "dead" | "alive": the child at the moment the call returned (from /proc)  *)
 (*      os_grace same, after the signal-delivery grace period                             *)
+(*      after_true "T" iff an earlier wait/terminate of this history has returned True     *)
 (*      selfsig "T" iff the call sent SIGTERM to the calling process itself               *)
 (* The same operators are evaluated on states of Lifecycle.tla and on records projected  *)
 (* from executions of real workers (LifecycleJudge.tla).                                  *)
@@ -34,6 +35,10 @@ DeadFastC(r, c) == (c.op \in WTOps /\ c.pre = "dead") => (c.ret = "T" /\ c.fast 
 \* terminate(force=True) on a process/remote worker that does not block SIGTERM leaves the child dead
 ForceC(r, c)    == (c.op \in ForceOps /\ r.scn.kind \in {"process", "remote"} /\ c.ret \in {"T", "F"}) => c.os_grace = "dead"
 
+\* once wait/terminate has answered True the worker is dead: every later wait/terminate answers True, is_alive False
+StableC(r, c)   == c.after_true = "T" => ((c.op \in WTOps => c.ret = "T") /\ (c.op = "alive" => c.ret = "F"))
+
+C04_Stable(r)   == \A c \in Calls(r) : StableC(r, c)
 C04_Returns(r)  == \A c \in Calls(r) : ReturnsC(r, c)
 C04_Truthful(r) == \A c \in Calls(r) : TruthfulC(r, c)
 C04_DeadFast(r) == \A c \in Calls(r) : DeadFastC(r, c)
